@@ -130,8 +130,50 @@ def keep(wt, name, prop, ran):
     print("kept", d)
 
 
+def sweep(names, props):
+    """apply every kept patch in turn and run the given quick checks; writes seeded/RESULTS.json"""
+    out_path = os.path.join(VERIF, "seeded", "RESULTS.json")
+    results = json.load(open(out_path)) if os.path.exists(out_path) else {}
+    rc, out = sh("git status --short", cwd="/repo")
+    if out.strip():
+        print("refusing: /repo has uncommitted changes")
+        sys.exit(2)
+    for name in names:
+        d = os.path.join(VERIF, "seeded", name)
+        meta = json.load(open(os.path.join(d, "meta.json")))
+        rc, out = sh(f"git apply --whitespace=nowarn {d}/patch.diff", cwd="/repo")
+        if rc != 0:
+            print(name, "patch does not apply:", out[-200:])
+            results[name] = {"error": "patch does not apply"}
+            continue
+        row = {}
+        try:
+            for p in props:
+                rc, out = sh(f"./check {p} --tier quick", cwd=VERIF, timeout=7200)
+                v = [l for l in out.splitlines() if l.startswith(("VIOLATION", "INCONCLUSIVE"))]
+                sig = [l.strip().split(": ")[0] for l in out.splitlines() if l.startswith("  ")][:2]
+                row[p] = {"rc": rc, "sig": sig}
+        finally:
+            sh("git checkout -- .", cwd="/repo")
+            shutil.rmtree(os.path.join(VERIF, "replays"), ignore_errors=True)
+        results[name] = {"breaks": meta["breaks_property"], "checks": row}
+        caught = [p for p, r in row.items() if r["rc"] == 1]
+        incon = [p for p, r in row.items() if r["rc"] == 2]
+        print(name, "breaks", meta["breaks_property"], "| caught by", caught, "| inconclusive", incon, flush=True)
+        json.dump(results, open(out_path, "w"), indent=1)
+    return results
+
+
 if __name__ == "__main__":
-    cmd, wt = sys.argv[1], sys.argv[2]
+    cmd = sys.argv[1]
+    if cmd == "sweep":
+        allp = ["C%02d" % i for i in range(1, 21)]
+        names = sorted(n for n in os.listdir(os.path.join(VERIF, "seeded")) if os.path.isdir(os.path.join(VERIF, "seeded", n)))
+        if len(sys.argv) > 2:
+            names = [n for n in names if any(n.startswith(a) for a in sys.argv[2:])]
+        sweep(names, allp)
+        sys.exit(0)
+    wt = sys.argv[2]
     if cmd == "verify":
         print(json.dumps(verify(wt), indent=1))
     elif cmd == "eval":
